@@ -130,6 +130,39 @@ func zipfuzzExec(c *Ctx, op string) {
 		}
 		zw.Close()
 		b = zb.Bytes()
+	case "extra":
+		// a structurally valid zip whose entries carry the given extra field verbatim (no Modified time, so archive/zip
+		// appends nothing after it: the owner blocks end where the field ends)
+		extra := []byte(unhx(m[1]))
+		var zb bytes.Buffer
+		zw := zip.NewWriter(&zb)
+		for _, e := range fsx {
+			name := e.Name
+			data := e.Content
+			mode := os.FileMode(e.Perms & 0777)
+			switch e.Kind {
+			case 'd':
+				name += "/"
+				mode |= os.ModeDir
+				data = nil
+			case 'L':
+				mode |= os.ModeSymlink
+				data = []byte(e.Link)
+			}
+			if e.Name == "" {
+				name = "./"
+			}
+			fh := &zip.FileHeader{Name: name, Method: zip.Store, Extra: extra}
+			fh.SetMode(mode)
+			fh.CRC32 = crc32.ChecksumIEEE(data)
+			fh.CompressedSize64 = uint64(len(data))
+			fh.UncompressedSize64 = uint64(len(data))
+			if w, e := zw.CreateRaw(fh); e == nil {
+				w.Write(data)
+			}
+		}
+		zw.Close()
+		b = zb.Bytes()
 	case "garbage":
 		b = []byte("PK\x03\x04 this is not a zip, not really" + strings.Repeat("x", arg(1)%200))
 	case "tarbytes":
@@ -163,6 +196,43 @@ func zipfuzzExec(c *Ctx, op string) {
 	c.H("mut:" + m[0] + ":" + strings.Fields(res)[0])
 	c.EmitR(op, "skip", "skip")
 	c.Distinct(op)
+}
+
+// ownerExtras: extra fields holding one owner block whose data is cut at every length, for the size bytes the parsers
+// branch on; plus fields that end inside a block header, and blocks declaring more data than there is.
+func ownerExtras() [][]byte {
+	var out [][]byte
+	for _, id := range []uint16{0x7875, 0x7855} {
+		for l := 0; l <= 12; l++ {
+			for _, us := range []byte{0, 2, 4, 8} {
+				for _, gs := range []byte{2, 4, 9} {
+					data := make([]byte, l)
+					for i := range data {
+						data[i] = byte(i + 1)
+					}
+					if l > 0 {
+						data[0] = 1
+					}
+					if l > 1 {
+						data[1] = us
+					}
+					if 2+int(us) < l {
+						data[2+int(us)] = gs
+					}
+					ex := []byte{byte(id), byte(id >> 8), byte(l), 0}
+					out = append(out, append(ex, data...))
+					if id == 0x7855 {
+						break
+					}
+				}
+				if id == 0x7855 {
+					break
+				}
+			}
+		}
+		out = append(out, []byte{byte(id)}, []byte{byte(id), byte(id >> 8)}, []byte{byte(id), byte(id >> 8), 4}, []byte{byte(id), byte(id >> 8), 200, 0, 1, 4})
+	}
+	return out
 }
 
 func findAll(b, pat []byte) []int {
@@ -209,6 +279,17 @@ func zipfuzzEngine(c *Ctx) {
 		}
 		for i := 0; i < 10; i++ {
 			zipfuzzExec(c, fmt.Sprintf("zipfuzz liesize:%d:%d %s", c.Intn(8), c.Intn(8), tok))
+		}
+		if k < 2 {
+			// owner blocks (unix3 0x7875, unix2 0x7855) of every short length, with every size byte that matters
+			for _, ex := range ownerExtras() {
+				zipfuzzExec(c, fmt.Sprintf("zipfuzz extra:%s %s", hx(string(ex)), tok))
+			}
+		} else {
+			ex := ownerExtras()
+			for i := 0; i < 6; i++ {
+				zipfuzzExec(c, fmt.Sprintf("zipfuzz extra:%s %s", hx(string(ex[c.Intn(len(ex))])), tok))
+			}
 		}
 		zipfuzzExec(c, "zipfuzz garbage:17 "+tok)
 		zipfuzzExec(c, "zipfuzz tarbytes "+tok)
